@@ -1,7 +1,7 @@
 (* Extraction of the text models (UTF-8, LIKE, string functions) to OCaml.  ExtrOcamlBasic only. *)
 From Coq Require Import Extraction ExtrOcamlBasic.
 From Coq Require Import NArith ZArith List.
-From GV Require Import model.Utf8 model.Like model.StrFn.
+From GV Require Import model.Utf8 model.Like model.StrFn model.Regex.
 Extraction "extract/text_model.ml"
   Utf8.encode Utf8.decode Utf8.utf8_validb Utf8.starts_with Utf8.ends_with Utf8.contains Utf8.list_eqb
   Like.like_regex Like.like_spec Like.classify Like.rewrite_sem Like.no_bsl Like.no_nl
@@ -12,4 +12,9 @@ Extraction "extract/text_model.ml"
   StrFn.impl_lpad StrFn.spec_lpad StrFn.impl_rpad StrFn.spec_rpad
   StrFn.impl_strpos StrFn.spec_strpos StrFn.impl_replace StrFn.spec_replace
   StrFn.impl_translate StrFn.spec_translate StrFn.spec_ltrim StrFn.spec_rtrim StrFn.spec_btrim
-  StrFn.impl_split_part StrFn.spec_split_part.
+  StrFn.impl_split_part StrFn.spec_split_part
+  StrFn.translate_map StrFn.spec_repeat_copies
+  StrFn.upper_ascii StrFn.lower_ascii StrFn.initcap_ascii
+  StrFn.spec_upper_ascii StrFn.spec_lower_ascii StrFn.spec_initcap_ascii StrFn.is_ascii
+  Regex.dmatch Regex.impl_regexp_like Regex.impl_regexp_instr Regex.spec_regexp_instr
+  Regex.impl_regexp_count Regex.impl_regexp_replace.
